@@ -81,6 +81,14 @@ Proof.
     destruct ((a =? 27) && (c =? 92)); [inversion H; subst; apply ss_cons, ss_refl|eapply G, H].
 Qed.
 
+Lemma scan_str_suffix inp : forall prev rest, scan_str inp prev = Some rest -> strict_suffix 1 rest inp.
+Proof.
+  induction inp as [|c inp IH]; intros prev rest H; cbn [scan_str] in H; [discriminate|].
+  destruct ((c =? 7) || (c =? 156)); [inversion H; subst; apply ss_cons, ss_refl|].
+  destruct ((prev =? 27) && (c =? 92)); [inversion H; subst; apply ss_cons, ss_refl|].
+  apply (ss_weaken 2); [lia|]. apply ss_cons. eapply IH, H.
+Qed.
+
 Lemma parse_osc_suffix inp k rest : parse_osc inp = PTok k rest -> strict_suffix 1 rest inp.
 Proof.
   unfold parse_osc. destruct (scan_digits inp 0) as [[[v b] r]|] eqn:E; [|discriminate].
@@ -88,7 +96,9 @@ Proof.
   destruct (b =? 59).
   - destruct (scan_osc_payload r []) as [[p r']|] eqn:E2; [|discriminate]. intros H; inversion H; subst.
     apply scan_osc_payload_suffix in E2. apply (ss_weaken 2); [lia|]. apply (ss_trans 1 1 _ r); assumption.
-  - destruct (_ || _); intros H; inversion H; subst; exact E.
+  - destruct (_ || _); [intros H; inversion H; subst; exact E|].
+    destruct (scan_str r b) as [r'|] eqn:E3; [|discriminate]. intros H; inversion H; subst.
+    apply scan_str_suffix in E3. apply (ss_weaken 2); [lia|]. apply (ss_trans 1 1 _ r); assumption.
 Qed.
 
 Lemma scan_dcs_suffix inp : forall prev rest, scan_dcs inp prev = Some rest -> strict_suffix 1 rest inp.
